@@ -600,6 +600,22 @@ TARGETS = [
                   read_calls={"FullPackKind::parse": "fullPackKindParse bs", "VendorId::parse": "takeBytes bs 4", "Uuid::parse": "takeBytes bs 16",
                               "Size::parse": "takeLE bs 8", "Offset::parse": "takeLE bs 8"},
                   struct_as={"PackHeader": ["magic", "app_vendor_id", "major_version", "minor_version", "uuid", "flags", "file_size", "check_info_pos"]})),
+    # ---- the headers of the four pack kinds and the pack locator
+    dict(name="containerHeaderParse", group="Open", file="src/common/headers/container_pack.rs", fn="parse",
+         cfg=dict(params=[("bs", "Bytes")], ret="(Nat × Nat × Bytes)", outcome=True, reads={"read_u16": "takeLE bs 2", "skip": "takeBytes bs {0}"}, read_calls={"Offset::parse": "takeLE bs 8", "Size::parse": "takeLE bs 8", "Count<u32>::parse": "takeLE bs 4", "Count<u16>::parse": "takeLE bs 2", "Count<u8>::parse": "takeLE bs 1", "PackFreeData::parse": "takeBytes bs 24", "Uuid::parse": "takeBytes bs 16", "SizedOffset::parse": "takeLE bs 8"},
+                  struct_as={"ContainerPackHeader": ["pack_locators_pos", "pack_count", "free_data"]})),
+    dict(name="contentHeaderParse", group="Open", file="src/common/headers/content_pack.rs", fn="parse",
+         cfg=dict(params=[("bs", "Bytes")], ret="(Nat × Nat × Nat × Nat × Bytes)", outcome=True, reads={"skip": "takeBytes bs {0}"}, read_calls={"Offset::parse": "takeLE bs 8", "Size::parse": "takeLE bs 8", "Count<u32>::parse": "takeLE bs 4", "Count<u16>::parse": "takeLE bs 2", "Count<u8>::parse": "takeLE bs 1", "PackFreeData::parse": "takeBytes bs 24", "Uuid::parse": "takeBytes bs 16", "SizedOffset::parse": "takeLE bs 8"},
+                  struct_as={"ContentPackHeader": ["content_ptr_pos", "cluster_ptr_pos", "content_count", "cluster_count", "free_data"]})),
+    dict(name="directoryHeaderParse", group="Open", file="src/common/headers/directory_pack.rs", fn="parse",
+         cfg=dict(params=[("bs", "Bytes")], ret="(Nat × Nat × Nat × Nat × Nat × Nat × Bytes)", outcome=True, reads={"skip": "takeBytes bs {0}"}, read_calls={"Offset::parse": "takeLE bs 8", "Size::parse": "takeLE bs 8", "Count<u32>::parse": "takeLE bs 4", "Count<u16>::parse": "takeLE bs 2", "Count<u8>::parse": "takeLE bs 1", "PackFreeData::parse": "takeBytes bs 24", "Uuid::parse": "takeBytes bs 16", "SizedOffset::parse": "takeLE bs 8"},
+                  struct_as={"DirectoryPackHeader": ["index_ptr_pos", "entry_store_ptr_pos", "value_store_ptr_pos", "index_count", "entry_store_count", "value_store_count", "free_data"]})),
+    dict(name="manifestHeaderParse", group="Open", file="src/common/headers/manifest_pack.rs", fn="parse",
+         cfg=dict(params=[("bs", "Bytes")], ret="(Nat × Nat × Bytes)", outcome=True, reads={"skip": "takeBytes bs {0}"}, read_calls={"Offset::parse": "takeLE bs 8", "Size::parse": "takeLE bs 8", "Count<u32>::parse": "takeLE bs 4", "Count<u16>::parse": "takeLE bs 2", "Count<u8>::parse": "takeLE bs 1", "PackFreeData::parse": "takeBytes bs 24", "Uuid::parse": "takeBytes bs 16", "SizedOffset::parse": "takeLE bs 8"},
+                  struct_as={"Self": ["pack_count", "value_store_posinfo", "free_data"]})),
+    dict(name="packLocatorParse", group="Open", file="src/common/pack_locator.rs", fn="parse", after=r"impl Parsable for PackLocator",
+         cfg=dict(params=[("bs", "Bytes")], ret="(Bytes × Nat × Nat)", outcome=True, read_calls={"Offset::parse": "takeLE bs 8", "Size::parse": "takeLE bs 8", "Count<u32>::parse": "takeLE bs 4", "Count<u16>::parse": "takeLE bs 2", "Count<u8>::parse": "takeLE bs 1", "PackFreeData::parse": "takeBytes bs 24", "Uuid::parse": "takeBytes bs 16", "SizedOffset::parse": "takeLE bs 8"},
+                  struct_as={"Self": ["uuid", "pack_size", "pack_pos"]})),
 ]
 
 
